@@ -56,10 +56,10 @@ Print Assumptions C13_three_routes_agree_on_partial.
 (* refutations (each reproduced on the real binary, KNOWN_FINDINGS.txt) *)
 (* ================================================================== *)
 Definition W (s : string) : str := str_of_string s.
-Definition I (s : string) : node := Sc false (W s).
+Definition Sv (s : string) : node := Sc false (W s).
 
-Definition map_a : node := Mp true [(W "x", I "1"); (W "y", I "2")].
-Definition map_b : node := Mp true [(W "x", I "10"); (W "w", I "3")].
+Definition map_a : node := Mp true [(W "x", Sv "1"); (W "y", Sv "2")].
+Definition map_b : node := Mp true [(W "x", Sv "10"); (W "w", Sv "3")].
 
 (* m: {<<: [*a, *b], q: 0} : traversal reads b's x, explode and JSON a's; the spec says a's *)
 Theorem C13_mergelist_overlap_refuted : exists (d : node) (p : list step),
@@ -67,7 +67,7 @@ Theorem C13_mergelist_overlap_refuted : exists (d : node) (p : list step),
   /\ option_map (vget p) (resolve 20 d) = Some (Some (VS (W "1"))).
 Proof.
   exists (Mp false [(W "a", map_a); (W "b", map_b);
-                    (W "m", Mp false [(merge_key, Sq false [Al map_a; Al map_b]); (W "q", I "0")])]),
+                    (W "m", Mp false [(merge_key, Sq false [Al map_a; Al map_b]); (W "q", Sv "0")])]),
          [PKey (W "m"); PKey (W "x")].
   vm_compute. repeat split.
 Qed.
@@ -79,7 +79,7 @@ Theorem C13_explicit_before_merge_refuted : exists (d : node) (p : list step),
   /\ route3 20 d = ROk (W "{""a"":{""x"":1,""y"":2},""n"":{""x"":1,""y"":2}}")
   /\ option_map (vget p) (resolve 20 d) = Some (Some (VS (W "5"))).
 Proof.
-  exists (Mp false [(W "a", map_a); (W "n", Mp false [(W "x", I "5"); (merge_key, Al map_a)])]),
+  exists (Mp false [(W "a", map_a); (W "n", Mp false [(W "x", Sv "5"); (merge_key, Al map_a)])]),
          [PKey (W "n"); PKey (W "x")].
   vm_compute. repeat split.
 Qed.
@@ -90,8 +90,8 @@ Theorem C13_mergelist_value_text_refuted : exists (d : node) (p : list step),
   route1 20 d p = ROk (W "3") /\ route2 20 d p = ROk (W "null")
   /\ option_map (vget p) (resolve 20 d) = Some (Some (VS (W "3"))).
 Proof.
-  exists (Mp false [(W "a", Mp true [(W "x", I "1")]); (W "b", map_b);
-                    (W "m", Mp false [(merge_key, Sq false [Al (Mp true [(W "x", I "1")]); Al map_b]); (W "z", I "w")])]),
+  exists (Mp false [(W "a", Mp true [(W "x", Sv "1")]); (W "b", map_b);
+                    (W "m", Mp false [(merge_key, Sq false [Al (Mp true [(W "x", Sv "1")]); Al map_b]); (W "z", Sv "w")])]),
          [PKey (W "m"); PKey (W "w")].
   vm_compute. repeat split.
 Qed.
@@ -101,7 +101,7 @@ Print Assumptions C13_mergelist_value_text_refuted.
 Theorem C13_subresult_literal_merge_refuted : exists (d : node) (p : list step),
   route1 20 d p = ROk (W "{""<<"":{""z"":9},""x"":5}") /\ route2 20 d p = ROk (W "{""z"":9,""x"":5}").
 Proof.
-  pose (c := Mp true [(W "z", I "9")]). pose (dd := Sc true (W "5")).
+  pose (c := Mp true [(W "z", Sv "9")]). pose (dd := Sc true (W "5")).
   pose (a := Mp true [(merge_key, Al c); (W "x", Al dd)]).
   exists (Mp false [(W "c", c); (W "d", dd); (W "a", a); (W "b", Al a)]), [PKey (W "b")].
   vm_compute. split; reflexivity.
@@ -112,24 +112,24 @@ Print Assumptions C13_subresult_literal_merge_refuted.
 (* non-vacuity                                                         *)
 (* ================================================================== *)
 Example C13_example :
-  let c := Mp true [(W "z", I "9")] in
+  let c := Mp true [(W "z", Sv "9")] in
   let a := Mp true [(merge_key, Al c); (W "x", Sc true (W "5"))] in
-  let d := Mp false [(W "c", c); (W "a", a); (W "s", Sq true [Al a; I "7"]);
-                     (W "e", Mp false [(merge_key, Sq false [Al a]); (W "x", I "1"); (W "y", I "2")])] in
+  let d := Mp false [(W "c", c); (W "a", a); (W "s", Sq true [Al a; Sv "7"]);
+                     (W "e", Mp false [(merge_key, Sq false [Al a]); (W "x", Sv "1"); (W "y", Sv "2")])] in
   route3 20 d = ROk (W "{""c"":{""z"":9},""a"":{""z"":9,""x"":5},""s"":[{""z"":9,""x"":5},7],""e"":{""z"":9,""x"":1,""y"":2}}")
   /\ route1 20 d [PKey (W "e"); PKey (W "z")] = ROk (W "9")
   /\ route2 20 d [PKey (W "e"); PKey (W "x")] = ROk (W "1")
   /\ route1 20 d [PKey (W "s"); PIdx 0; PKey (W "z")] = ROk (W "9")
   /\ option_map (vget [PKey (W "e"); PKey (W "x")]) (resolve 20 d) = Some (Some (VS (W "1")))
-  /\ tlook 5 (W "z") [(merge_key, merge_value [[(W "z", I "9"); (W "x", I "5")]]); (W "x", I "1"); (W "y", I "2")] None
-       = ROk (Some (I "9"))
-  /\ explode 5 (Mp false [(merge_key, merge_value [[(W "z", I "9"); (W "x", I "5")]]); (W "x", I "1"); (W "y", I "2")])
-       = ROk (Mp false [(W "z", I "9"); (W "x", I "1"); (W "y", I "2")]).
+  /\ tlook 5 (W "z") [(merge_key, merge_value [[(W "z", Sv "9"); (W "x", Sv "5")]]); (W "x", Sv "1"); (W "y", Sv "2")] None
+       = ROk (Some (Sv "9"))
+  /\ explode 5 (Mp false [(merge_key, merge_value [[(W "z", Sv "9"); (W "x", Sv "5")]]); (W "x", Sv "1"); (W "y", Sv "2")])
+       = ROk (Mp false [(W "z", Sv "9"); (W "x", Sv "1"); (W "y", Sv "2")]).
 Proof. cbv zeta. repeat split; vm_compute; reflexivity. Qed.
 
 (* the hypotheses of the partial theorem are satisfiable *)
 Example C13_merge_simple_example :
-  merge_simple [[(W "z", I "9"); (W "x", I "5")]; [(W "w", I "3")]] [(W "x", I "1"); (W "y", I "2")].
+  merge_simple [[(W "z", Sv "9"); (W "x", Sv "5")]; [(W "w", Sv "3")]] [(W "x", Sv "1"); (W "y", Sv "2")].
 Proof.
   unfold merge_simple. vm_compute. repeat split.
   - repeat constructor; cbn; intuition discriminate.
